@@ -864,6 +864,12 @@ class StmtMixin:
         P = fresh("P", KB)
         kq = z3.Const("k!P", Val)
         has_arr = z3.Select(h.heap["d_has"], a)
+        if not (z3.is_const(a) and a.decl().kind() == z3.Z3_OP_UNINTERPRETED) and not z3.is_int_value(a):
+            # a merged / computed address: name the key-set array once (no `If` inside patterns)
+            hc = fresh("dkeys", KB)
+            h.assume(hc == has_arr)
+            h.defs.append(hc == has_arr)
+            has_arr = hc
         h.assume(z3.ForAll([kq], z3.Implies(z3.Select(P, kq), z3.Select(has_arr, kq)), patterns=[z3.Select(P, kq)]))
         for (name, f) in inv(self.loop_ctx(entry, h, {"P": P, "src": src})):
             h.assume(f)
